@@ -32,13 +32,13 @@ Theorem C10_enhance_stability_same : forall rnd n p q eps A L Q L' Q', (0 < n)%n
 Proof. exact enhance_stability_same. Qed.
 Print Assumptions C10_enhance_stability_same.
 
-(* the diagonal flag and the 1x1 path return the value of the general (eigen) path *)
+(* the diagonal flag (on PSD diagonal input) and the 1x1 path (any entry) return the value of the general (eigen) path *)
 Theorem C10_fastpaths_eq_general : forall rnd n p q eps A L Q cfg,
   (0 < p)%Z -> eigh_contract rnd n A L Q ->
   ((1 < n)%nat -> mis_diag (R_ops rnd) n A -> (forall i, (i < n)%nat -> 0 <= A i i) ->
      exists Xd, matrix_inverse_root (R_ops rnd) [n; n] A p q cfg eps true L Q = Ok (plain (R_ops rnd) Xd)
                 /\ meq n Xd (eigen_X (R_ops rnd) n p q eps false L Q))
-  /\ (n = 1%nat -> 0 <= A 0%nat 0%nat ->
+  /\ (n = 1%nat ->
      exists Xs, matrix_inverse_root (R_ops rnd) [1%nat; 1%nat] A p q cfg eps false L Q = Ok (plain (R_ops rnd) Xs)
                 /\ meq 1 Xs (eigen_X (R_ops rnd) 1 p q eps false L Q)).
 Proof. exact fastpaths_eq_general. Qed.
